@@ -34,18 +34,19 @@ const (
 
 // SyncEnv is scenario SYNC: one DbSyncer between a master model and a target model.
 type SyncEnv struct {
-	C       *core.Ctx
-	S       *simrt.Sim
-	T       *tape.Tape
-	Net     *simnet.Net
-	Src     *modelredis.Master
-	MoreSrc []*modelredis.Master // further sources (AddSource)
-	Tgt     *modelredis.Server
-	LC      *env.LogCapture
-	Tool    *simrt.Proc
-	Tools   []*simrt.Proc
-	DS      *dbSync.DbSyncer
-	Node    slot.SyncNode
+	C         *core.Ctx
+	S         *simrt.Sim
+	T         *tape.Tape
+	Net       *simnet.Net
+	Src       *modelredis.Master
+	MoreSrc   []*modelredis.Master           // further sources (AddSource)
+	NodeTweak func(i int, nd *slot.SyncNode) // adjusts the node descriptor of source i >= 1 (slot boundaries of a shard)
+	Tgt       *modelredis.Server
+	LC        *env.LogCapture
+	Tool      *simrt.Proc
+	Tools     []*simrt.Proc
+	DS        *dbSync.DbSyncer
+	Node      slot.SyncNode
 	// Phase of the tool (base.Status) when each target connection was opened, by server endpoint id
 	ConnInc    map[int]int // tool incarnation (len(Tools)) that opened each target connection
 	ConnPhase  map[int]string
@@ -96,6 +97,9 @@ func (e *SyncEnv) StartTool() {
 		nd := e.Node
 		nd.Id = i + 1
 		nd.Source = m.Addr
+		if e.NodeTweak != nil {
+			e.NodeTweak(i+1, &nd)
+		}
 		e.S.GoProc(p, fmt.Sprintf("tool-main-%d", i+1), func() {
 			dbSync.NewDbSyncer(&nd, conf.Options.HttpProfile+nd.Id, sem).Sync()
 		})
